@@ -104,7 +104,9 @@ template<int REP> static TS* make(Pre& p)
    p.setup = vp_nondet_bool(); p.fact = vp_nondet_bool();
    vp_assume(!p.fact || p.setup);                                   // a factorization exists only for a set-up matrix
    s->Basis::matrixIsSetup = p.setup; s->Basis::factorized = p.fact;
+#ifndef NO_MATRIX
    if(p.setup) for(int k = 0; k < p.dim; ++k) s->Basis::matrix[k] = &s->vector(s->Basis::theBaseId[k]);
+#endif
    p.bstat = vp_int_in(Basis::SINGULAR, Basis::INFEASIBLE);         // a basis is available
    s->Basis::thestatus = (Basis::SPxStatus)p.bstat;
    s->initialized = vp_nondet_bool();
@@ -147,6 +149,7 @@ static void check(TS* s, const Pre& p, const bool* rowgone, const bool* colgone)
       vp_assert(ndual == nr1, 10);                                     // ... i.e. exactly one basic (dual-status) variable per row
       vp_assert(s->Basis::theBaseId.size() == dim1 && s->Basis::matrix.size() == dim1, 11);
       vp_assert(!s->Basis::factorized || s->Basis::matrixIsSetup, 12);
+#ifndef NO_BASEID_CHECK
       if(s->Basis::matrixIsSetup)
       {  // "matrixIsSetup: true iff the pointers in matrix are set up correctly": base ids list the basic variables of the new LP
          for(int k = 0; k < VMAX; ++k) if(k < dim1)
@@ -159,19 +162,29 @@ static void check(TS* s, const Pre& p, const bool* rowgone, const bool* colgone)
             vp_assert(s->Basis::matrix[k] == &s->vector(id), 16);
          }
       }
+#endif
    }
 }
 
-template<int REP> static void remove_one()
+template<int REP, bool ROWS> static void remove_one_at(int c)
 {
    Pre p; TS* s = make<REP>(p);
    bool rowgone[VNR], colgone[VNC];
    for(int i = 0; i < VNR; ++i) rowgone[i] = false;
    for(int j = 0; j < VNC; ++j) colgone[j] = false;
-   int rows = vp_int_in(0, 1);
-   if(rows) { int i = vp_int_in(0, VNR - 1); rowgone[i] = true; s->removeRow(i); }
-   else { int j = vp_int_in(0, VNC - 1); colgone[j] = true; s->removeCol(j); }
+   if(ROWS) { rowgone[c] = true; s->removeRow(c); }
+   else { colgone[c] = true; s->removeCol(c); }
    check(s, p, rowgone, colgone);
+}
+// the index is arbitrary, but concrete within each scenario (the LP's own renumbering is not the subject here)
+template<int REP, bool ROWS> static void remove_one()
+{
+#ifdef IDX
+   remove_one_at<REP, ROWS>(IDX);
+#else
+   int i = vp_int_in(0, (ROWS ? VNR : VNC) - 1);
+   for(int c = 0; c < (ROWS ? VNR : VNC); ++c) if(i == c) remove_one_at<REP, ROWS>(c);
+#endif
    vp_cover(1);
 }
 template<int REP> static void remove_perm()
@@ -180,6 +193,9 @@ template<int REP> static void remove_perm()
    bool rowgone[VNR], colgone[VNC];
    for(int i = 0; i < VNR; ++i) rowgone[i] = false;
    for(int j = 0; j < VNC; ++j) colgone[j] = false;
+#ifdef ONLY_MAKE
+   vp_cover(1); return;
+#endif
    int rows = vp_int_in(0, 1);
    int* perm = new int[VMAX];
    if(rows)
@@ -195,7 +211,9 @@ template<int REP> static void remove_perm()
    check(s, p, rowgone, colgone);
    vp_cover(1);
 }
-extern "C" void h_c04_removed_one_colrep() { remove_one<Solver::COLUMN>(); }
-extern "C" void h_c04_removed_one_rowrep() { remove_one<Solver::ROW>(); }
+extern "C" void h_c04_removed_row_colrep() { remove_one<Solver::COLUMN, true>(); }
+extern "C" void h_c04_removed_col_colrep() { remove_one<Solver::COLUMN, false>(); }
+extern "C" void h_c04_removed_row_rowrep() { remove_one<Solver::ROW, true>(); }
+extern "C" void h_c04_removed_col_rowrep() { remove_one<Solver::ROW, false>(); }
 extern "C" void h_c04_removed_perm_colrep() { remove_perm<Solver::COLUMN>(); }
 extern "C" void h_c04_removed_perm_rowrep() { remove_perm<Solver::ROW>(); }
